@@ -4,7 +4,7 @@
    an arbitrary history of events, the predicates of Observe/Spec.v are RFC 7641 3.4 and the
    property text. *)
 From Coq Require Import ZArith List Bool.
-From GoCoap Require Import Base.Bytes Observe.Model Observe.Spec Observe.Proofs Observe.BwModel Observe.BwSpec Observe.BwProofs.
+From GoCoap Require Import Base.Bytes Observe.Model Observe.Spec Observe.Proofs Observe.BwModel Observe.BwSpec Observe.BwProofs Observe.Hash.
 Import ListNotations.
 Open Scope Z_scope.
 
@@ -241,4 +241,66 @@ Proof.
       repeat (destruct Ht' as [Ht'|Ht']; [subst t'|]); try contradiction; try reflexivity;
       vm_compute in Hc; discriminate.
   - intros t Ht. cbn in Ht. destruct Ht as [Ht|[]]. subst t. cbn. intuition discriminate.
+Qed.
+
+(* ---------- tokens that differ only by leading zero bytes ---------- *)
+(* Tokens are opaque byte strings of 0..8 bytes: {2a}, {00 2a}, {00 00 2a} are three tokens, {} and {00} are two.
+   A key that packs the bytes into an integer and forgets the length confuses them; CRC-64 as Go computes it
+   (register preset to all ones, one byte step is a bijection of the register) does not -- for ALL tokens t and
+   every number 1..8 of zero bytes in front (Observe/Hash.v): *)
+Theorem C08_hash_leading_zeros : forall t k,
+  bytes_ok t = true -> (1 <= k <= 8)%nat -> crc64 (repeat 0 k ++ t) <> crc64 t.
+Proof. exact hash_leading_zeros. Qed.
+Print Assumptions C08_hash_leading_zeros.
+
+(* the underlying fact: the same bytes hashed from two different registers give different registers *)
+Theorem C08_hash_step_injective : forall l s s',
+  Forall byte l -> w64 s -> w64 s' -> fold_left crc_byte l s = fold_left crc_byte l s' -> s = s'.
+Proof. intros l s s' Hl. exact (fold_inj l Hl s s'). Qed.
+Print Assumptions C08_hash_step_injective.
+
+Theorem C08_hash_zero_padded_distinct : forall t j k,
+  bytes_ok t = true -> (j <= 8)%nat -> (k <= 8)%nat ->
+  crc64 (repeat 0 j ++ t) = crc64 (repeat 0 k ++ t) -> j = k.
+Proof. exact hash_zero_padded_distinct. Qed.
+Print Assumptions C08_hash_zero_padded_distinct.
+
+(* hence, WITHOUT a hypothesis about the hash: in every history whose tokens are zero-padded variants of one
+   token (any number of simultaneous registrations 2a / 002a / 00002a ..., any messages, cancels) each callback
+   sees its registration's token only, registrations complete on their own token's 2.05/2.03 only, and the whole
+   property predicate holds *)
+Theorem C08_own_token_zero_padded : forall dec evs t,
+  bytes_ok t = true -> (forall x, In x (all_tokens evs) -> zero_padded t x) ->
+  own_ok (snd (run dec evs)) = true.
+Proof. exact own_token_zero_padded. Qed.
+Print Assumptions C08_own_token_zero_padded.
+
+Theorem C08_holds_zero_padded : forall dec evs t,
+  wf_evs dec evs -> bytes_ok t = true -> (forall x, In x (all_tokens evs) -> zero_padded t x) ->
+  c08_class (snd (run dec evs)) = 0%N.
+Proof. exact c08_holds_zero_padded. Qed.
+Print Assumptions C08_holds_zero_padded.
+
+(* non-vacuity: observations 2a and 002a side by side, notifications for 2a, 002a, 00002a, cancel of 002a.
+   The hypotheses hold; every notification goes to its own callback (00002a to the default handler); the
+   predicate rejects the same history with notification 002a handed to the callback of 2a. *)
+Example C08_zero_padded_instance :
+  let A := [42] in let B := [0; 42] in let C := [0; 0; 42] in
+  let n tok v tag := EMsg (mkMsg tok 69 (Some [v]) tag) 1000 in
+  let evs := [EReg A; n A 1 1; n B 10 2; EReg B; n B 11 3; n A 2 4; n C 12 5; n B 12 6; ECancel 1 69; n B 13 7; n A 3 8] in
+  (forall x, In x (all_tokens evs) -> zero_padded A x) /\
+  map snd (snd (run observe_wire evs)) =
+    [[]; [Cb 0 A (Some 1) 1; RegRet 0 0]; [Nx B 2]; []; [Cb 1 B (Some 11) 3; RegRet 1 0]; [Cb 0 A (Some 2) 4];
+     [Nx C 5]; [Cb 1 B (Some 12) 6]; [CanRet 1 1]; [Nx B 7]; [Cb 0 A (Some 3) 8]] /\
+  c08_class (snd (run observe_wire evs)) = 0%N /\
+  c08_class (combine evs
+    [[]; [Cb 0 A (Some 1) 1; RegRet 0 0]; [Cb 0 B (Some 10) 2]; [RegRet 1 3]; []; []; []; []; []; []; []]) = 2%N.
+Proof.
+  split; [|vm_compute; repeat split; reflexivity].
+  assert (P0 : zero_padded [42] [42]) by (exists 0%nat; split; [repeat constructor|reflexivity]).
+  assert (P1 : zero_padded [42] [0; 42]) by (exists 1%nat; split; [repeat constructor|reflexivity]).
+  assert (P2 : zero_padded [42] [0; 0; 42]) by (exists 2%nat; split; [repeat constructor|reflexivity]).
+  intros x Hx. cbn in Hx.
+  repeat (destruct Hx as [Hx|Hx]; [subst x; assumption|]).
+  contradiction.
 Qed.
